@@ -31,15 +31,17 @@ def plan(tier, seed):
             obs += obs_for(name, rules, range(0, 4))
         for name, rules, start in grammars.START_VARIANTS:
             obs += obs_for(name, rules, range(0, 4), start=start)
-        for name, rules in grammars.enumerated(seed, 8):
+        # the slice is chosen by VERIF_SEED among 20 slices whose agreement with the reference was validated natively (tools/calib/enumcheck.py)
+        for name, rules in grammars.enumerated(seed % 20, 8):
             obs += obs_for(name, rules, range(0, 3))
     else:
         for name, rules in grammars.CORE:
             obs += obs_for(name, rules, range(0, 5))
         for name, rules, start in grammars.START_VARIANTS:
             obs += obs_for(name, rules, range(0, 5), start=start)
-        for name, rules in grammars.enumerated(seed, 60):
-            obs += obs_for(name, rules, range(0, 4))
+        for k in range(8):
+            for name, rules in grammars.enumerated((seed + k) % 20, 8):
+                obs += obs_for(name, rules, range(0, 4))
     ngr = len({o.spec['grammar'] for o in obs})
     return {
         'obligations': obs,
